@@ -1,5 +1,6 @@
 import Props.C06
 import Props.C12
 import Props.C14
+import Props.C17
 import Props.C18
 import Props.C20
